@@ -368,13 +368,25 @@ class Interpreter:
         self.template_evaluator_factory = JinjaTemplateEvaluatorFactory(
             self.native_types
         )
+        # nicknames of nested and friend templates are not forward-reference
+        # names (globals only knows the top-level templates), but they are
+        # legitimate targets of random_reference
+        nicknames_and_tables = {
+            **{
+                template.nickname: template.tablename
+                for table in dict(parse_result.tables or {}).values()
+                for template in table._templates
+                if template.nickname
+            },
+            **globals.nicknames_and_tables,
+        }
         self.tables_to_keep_history_for = find_tables_to_keep_history_for(
-            parse_result, globals.nicknames_and_tables
+            parse_result, nicknames_and_tables
         )
         self.row_history = RowHistory(
             globals.transients.orig_used_ids,
             self.tables_to_keep_history_for,
-            self.globals.nicknames_and_tables,
+            nicknames_and_tables,
         )
         self.resave_objects_from_continuation(globals, self.tables_to_keep_history_for)
 
